@@ -51,9 +51,15 @@ Definition rawfh_eqb (x y : rawfh) : bool :=
 
 (* ---------- agree ---------- *)
 
+(* The model's domain for Add/Sub/KahanAdd excludes receivers with zero-length spans: the real
+   addBuckets mis-attributes buckets there (finding `arith-receiver-zero-length-span`), which a
+   model on expanded bucket lists cannot mirror.  `holds` still judges those cases. *)
+Definition has_empty_span (r : rawfh) : bool := existsb (fun s => s_len s =? 0) (r_ps r ++ r_ns r).
+
 Definition agree_body (b : body) : bool :=
   match b with
   | BArith sgn kahan a b o czero =>
+      if has_empty_span a then true else
       match abs_of_raw a, abs_of_raw b with
       | Ok ha, Ok hb =>
           match arith sgn ha hb, o with
